@@ -115,12 +115,12 @@ func nestDotted(structs []structSite) {
 		taken := map[string]bool{}
 		for _, e := range ss.n.ents {
 			if !strings.Contains(e.key, ".") {
-				taken[e.key] = true
+				taken[strings.ToLower(e.key)] = true // (keys may be lower-cased later on)
 			}
 		}
 		for _, e := range ss.n.ents {
 			parts := strings.Split(e.key, ".")
-			if len(parts) == 1 || taken[parts[0]] {
+			if len(parts) == 1 || taken[strings.ToLower(parts[0])] {
 				out = append(out, e)
 				continue
 			}
@@ -247,26 +247,38 @@ func runMapOpts(c *kit.Case) {
 		}
 		// the three bytes entry points
 		acc := [3]bool{res[0].ok(), res[1].ok(), res[2].ok()}
+		// keys: option + the format that is the odd one out (verdict or value: in the witness)
 		switch {
 		case acc[0] != acc[1] || acc[0] != acc[2]:
-			c.Viol("C17/mapping-option-verdict/"+opt.name+"/"+pattern(acc),
-				"the same document with the same unmarshal options is accepted in one format and rejected in another", wit())
+			odd := "json"
+			switch {
+			case acc[0] == acc[1]:
+				odd = "toml"
+			case acc[0] == acc[2]:
+				odd = "yaml"
+			}
+			w := wit()
+			w["difference"] = "verdict: " + pattern(acc)
+			c.Viol("C17/mapping-option/"+opt.name+"/"+odd+"-differs",
+				"the same document with the same unmarshal options is accepted in one format and rejected in another", w)
 		case acc[0]:
 			c.Obs("mapopts_all_accept", 1)
 			jy := reflect.DeepEqual(res[0].val.Interface(), res[1].val.Interface())
 			jt := reflect.DeepEqual(res[0].val.Interface(), res[2].val.Interface())
 			if !jy || !jt {
-				p := "all-differ"
+				p := "all"
 				switch {
 				case jy:
-					p = "toml-differs-json-yaml-agree"
+					p = "toml"
 				case jt:
-					p = "yaml-differs-json-toml-agree"
+					p = "yaml"
 				case reflect.DeepEqual(res[1].val.Interface(), res[2].val.Interface()):
-					p = "json-differs-yaml-toml-agree"
+					p = "json"
 				}
-				c.Viol("C17/mapping-option-value/"+opt.name+"/"+p,
-					"the same document with the same unmarshal options loads to different values depending on the format", wit())
+				w := wit()
+				w["difference"] = "value"
+				c.Viol("C17/mapping-option/"+opt.name+"/"+p+"-differs",
+					"the same document with the same unmarshal options loads to different values depending on the format", w)
 			}
 		default:
 			c.Obs("mapopts_all_reject", 1)
@@ -274,7 +286,7 @@ func runMapOpts(c *kit.Case) {
 		// reader variant == bytes variant
 		for f := 0; f < 3; f++ {
 			if same, kind := sameOutcome(res[f], res[f+3]); !same {
-				c.Viol("C17/mapping-reader-vs-bytes-"+kind+"/"+opt.name+"/"+fmtNames[f],
+				c.Viol("C17/mapping-reader-vs-bytes/"+fmtNames[f]+"/"+kind,
 					"the reader entry point gives another result than the bytes entry point on the same content and options", wit())
 			}
 		}
